@@ -170,8 +170,15 @@ j_c17w = j_notes(r"SECOND-CLOSE-EMITS|FLUSH-PREFIX-FAIL|WRITE-AFTER-CLOSE-ACCEPT
 j_c17r = j_notes(r"READ-AFTER-EOF-CONSUMES|WRONG-CONTENT", "Reader lifecycle broken", "reference model")
 
 
-def T(prop, *names, kind="full"):
-    return [dict(name=f"Lz4V.Props.{prop}.{n}", kind=kind) for n in names]
+def T(mod, *names, kind="full"):
+    return [dict(name=f"Lz4V.Props.{mod}.{n}", kind=kind, module=f"Lz4V.Props.{mod}") for n in names]
+
+T_FAST = T("C01fast", "decode_emitAll", "c11_fast", "c01_fast")
+T_GO = T("C04go", "c03_go") + T("C04go", "c04_go_partial", "c04_go_indep_partial", kind="full under the model's documented assumption len(dst) < 2^63") \
+    + T("C04go", "c04_go_unbounded_false", kind="counterexample (model artefact: fixed doubling fuel)")
+
+def x_c19(run):
+    pass
 
 
 PROPS = {
@@ -183,11 +190,14 @@ PROPS = {
     "C15": dict(runs=[FW("fwfail", judge=j_c15w), FR("frfail", judge=j_c15r)], theorems=[]),
     "C16": dict(runs=[FR("fr", judge=j_c16)], theorems=[]),
     "C17": dict(runs=[FW("fwlife", judge=j_c17w), FR("fr", judge=j_c17r)], theorems=[]),
-    "C01": dict(runs=[dict(CMP, judge=j_c01)], theorems=[]),
-    "C03": dict(runs=[dict(DEC_ASM, judge=j_c03), dict(DEC_GO, judge=j_c03)], theorems=[]),
-    "C04": dict(runs=[dict(DEC_ASM, judge=j_c04), dict(DEC_GO, judge=j_c04)], theorems=[]),
-    "C10": dict(runs=[dict(CMP, judge=j_c10)], theorems=[]),
-    "C11": dict(runs=[dict(CMP, judge=j_c11)], theorems=[]),
+    "C01": dict(runs=[dict(CMP, judge=j_c01)], theorems=T_FAST),
+    "C03": dict(runs=[dict(DEC_ASM, judge=j_c03), dict(DEC_GO, judge=j_c03)], theorems=T("C04go", "c03_go")),
+    "C04": dict(runs=[dict(DEC_ASM, judge=j_c04), dict(DEC_GO, judge=j_c04)], theorems=T_GO),
+    "C10": dict(runs=[dict(CMP, judge=j_c10)], theorems=T("C01fast", "c11_fast")),
+    "C11": dict(runs=[dict(CMP, judge=j_c11)], theorems=T("C01fast", "c11_fast")),
+    "C19": dict(runs=[dict(family="hdr", variant="asm", kview=lambda l: l.split(" ; ")[0].strip(), nontrivial=lambda c, i: "acc=" in i and not i.startswith("acc= "),
+                      judge=j_notes(r"HDR-MISMATCH\S*", "header acceptance not exact", "accepted iff checksum byte right and block-size code in 4..7; distinct errors; Size unchanged"))],
+               theorems=[], exhaustive_thorough=True),
     "C12": dict(runs=[dict(DEC_ASM, judge=j_c12), dict(DEC_GO, judge=j_c12)], extra=[x_c12], theorems=[]),
     "C13": dict(runs=[dict(XXH, judge=j_c13)], theorems=T("C13", "oneshot", "stream", "stream_reset")),
     "C14": dict(runs=[dict(CMP, judge=j_c14b)], theorems=[]),
